@@ -31,7 +31,7 @@ func init() {
 	}
 	Registry["C15"] = &Check{
 		Scenarios: c15Scenarios,
-		Rule: "An application error reporter that blocks for ever on the report of undecodable input (the faulty connection is closed all the same). Faults (undecodable input, EOF inside a message, handler panic) on an accepted connection whose transport reports no peer address (RemoteAddr() == nil) next to a healthy one. Server.Serve with three connections plus a fourth offered after the fault; accept script: every placement of <=2 temporary accept errors among the offers (temporary errors alternate between temporary-only, like EMFILE, and temporary-and-timeout, like EAGAIN); connection A suffers one fault from {handler panic (raised in the handler itself or, at even positions, 80 calls below it), undecodable input (by position: a header naming an unknown command with trailing bytes / a complete message whose AVP Length overruns it / stray octets behind the last AVP), disconnect in the middle of a message} at every position 1..3 of its three-message sequence; connections B, C and D exchange two request/answer pairs each with bodies that name their connection (the handler checks that the body belongs to the header); after A's fault the application registers a further handler on the running ServeMux, and the first handler of D also writes to A's (failed) diam.Conn, which must simply return an error; C and D are offered only after that, and C's first message is held inside its body until D has been served completely (so a read buffer shared across connections is overwritten); every ordering of environment steps, timers and blocking hand-overs at preemption bound 0 (quick: each accept placement with three of the nine fault/position pairs; thorough: the full product, and preemption bound 1 for the placement without accept errors); back-off sleeps run on the virtual clock. Four scenarios put 9, 10, 12 and 40 consecutive temporary accept errors between two connections. One scenario accepts a connection as TLS whose peer sends 7 bytes of a handshake record and falls silent (later connections must be accepted and served). One scenario accepts a connection as TLS while its peer sends plain Diameter (the handshake fails: the transport must be closed, the other connection served). Three scenarios (bound 1 / 2) put the fault {panic, undecodable header, cut} on a connection whose peer has stopped reading while the handler of a healthy connection is blocked inside a Write to it: the faulty transport is closed all the same, the blocked handler is released with an error and its connection goes on being served. Two scenarios use an application Handler that implements ErrorReporter itself and panics in Error (undecodable input / cut message on A). Five scenarios (bound 0 / 1) make the faulty connection a multistream (SCTP) association {handler panic, undecodable header, association ending inside a header / inside a body by EOF / by reset}. A runtime fatal error (unlock of an unlocked mutex) is modelled as unrecoverable and reported. Three further scenarios (preemption bound 1, thorough 2) put the fault at the third message of a connection whose first handler has requested CloseNotify, so that the notifier goroutine is running when the connection fails.",
+		Rule: "The value of an injected handler panic rotates with its position over {string, a slice-typed error, a struct holding a slice, a map}: values that can be neither hashed nor compared. An application error reporter that blocks for ever on the report of undecodable input (the faulty connection is closed all the same). Faults (undecodable input, EOF inside a message, handler panic) on an accepted connection whose transport reports no peer address (RemoteAddr() == nil) next to a healthy one. Server.Serve with three connections plus a fourth offered after the fault; accept script: every placement of <=2 temporary accept errors among the offers (temporary errors alternate between temporary-only, like EMFILE, and temporary-and-timeout, like EAGAIN); connection A suffers one fault from {handler panic (raised in the handler itself or, at even positions, 80 calls below it), undecodable input (by position: a header naming an unknown command with trailing bytes / a complete message whose AVP Length overruns it / stray octets behind the last AVP), disconnect in the middle of a message} at every position 1..3 of its three-message sequence; connections B, C and D exchange two request/answer pairs each with bodies that name their connection (the handler checks that the body belongs to the header); after A's fault the application registers a further handler on the running ServeMux, and the first handler of D also writes to A's (failed) diam.Conn, which must simply return an error; C and D are offered only after that, and C's first message is held inside its body until D has been served completely (so a read buffer shared across connections is overwritten); every ordering of environment steps, timers and blocking hand-overs at preemption bound 0 (quick: each accept placement with three of the nine fault/position pairs; thorough: the full product, and preemption bound 1 for the placement without accept errors); back-off sleeps run on the virtual clock. Four scenarios put 9, 10, 12 and 40 consecutive temporary accept errors between two connections. One scenario accepts a connection as TLS whose peer sends 7 bytes of a handshake record and falls silent (later connections must be accepted and served). One scenario accepts a connection as TLS while its peer sends plain Diameter (the handshake fails: the transport must be closed, the other connection served). Three scenarios (bound 1 / 2) put the fault {panic, undecodable header, cut} on a connection whose peer has stopped reading while the handler of a healthy connection is blocked inside a Write to it: the faulty transport is closed all the same, the blocked handler is released with an error and its connection goes on being served. Two scenarios use an application Handler that implements ErrorReporter itself and panics in Error (undecodable input / cut message on A). Five scenarios (bound 0 / 1) make the faulty connection a multistream (SCTP) association {handler panic, undecodable header, association ending inside a header / inside a body by EOF / by reset}. A runtime fatal error (unlock of an unlocked mutex) is modelled as unrecoverable and reported. Three further scenarios (preemption bound 1, thorough 2) put the fault at the third message of a connection whose first handler has requested CloseNotify, so that the notifier goroutine is running when the connection fails.",
 		Assume: []string{"data-race freedom between visible operations (audited separately with -race)"},
 		QuickBudget: 150, ThoroughBudget: 2400,
 	}
@@ -180,6 +180,9 @@ func srvBody(o srvOpts) func() {
 				st.events = append(st.events, "panic "+id)
 				// the panic is raised directly in the handler or, for faults at an even position, 80
 				// calls below it (application code calls through layers; the trace is long)
+				// and its value rotates with the position: a string, a slice-typed error and a map (values
+				// that cannot be hashed or compared), a struct holding a slice
+				c15PanicKind = o.panicAt[name] % 4
 				panicDeep(80 * (1 - o.panicAt[name]%2))
 			}
 			a := m.Answer(2001)
@@ -972,11 +975,31 @@ func c15Garbage(pos int, hbh uint32) []byte {
 	return m
 }
 
+// c15PanicKind selects the value the next injected handler panic carries (see panicDeep).
+var c15PanicKind = 2
+
+// c15ErrList is an error whose dynamic type is a slice (like go/scanner.ErrorList): it can be
+// neither hashed nor compared with ==.
+type c15ErrList []string
+
+func (e c15ErrList) Error() string { return strings.Join(e, "; ") }
+
 // panicDeep panics depth calls below its caller.
 //
 //go:noinline
 func panicDeep(depth int) int {
 	if depth <= 0 {
+		switch c15PanicKind {
+		case 1:
+			panic(c15ErrList{"origin host rejected", "realm rejected"})
+		case 3:
+			panic(map[string]int{"handler panic (injected)": 1})
+		case 0:
+			panic(struct {
+				What string
+				At   []int
+			}{"handler panic (injected)", []int{1, 2}})
+		}
 		panic("handler panic (injected)")
 	}
 	return panicDeep(depth-1) + 1
